@@ -1,21 +1,28 @@
 # run parameters and manifest texts of the C08 check (read by ../props.py)
-PROP = dict(
-    engine="stack", test="TestC08", level="exploration",
-    quick=dict(checks=70, shards=14, timeout=1500),
-    thorough=dict(checks=900, shards=14, timeout=3400),
-    rule="each case is three host runs. rapid draws a prefix of 1-3 generations from {healthy invocations with an extension set, init error "
-         "reported by the runtime, runtime exit after next / after response / while idle, timeout before the response / during init, "
-         "extension init error / exit error / stall, a different internal-extension population}, each ended by its own failure/timeout "
-         "reset or an explicit reset, and a lock-step suffix from {healthy, runtime exits after next, runtime reports an error, internal "
-         "extension polling before / after the runtime, timeout} with its own extension set (the extensions directory is "
-         "rewritten between generations). Late-notification family: the exit notification of the runtime killed by the last prefix reset "
-         "is parked at vhook watch.exitRecorded and released while idle, during the next initialisation or during the next invocation. "
-         "Oracle: the normalised trace of the suffix (callers' statuses and bodies, every new process's calls and answers, supervisor "
-         "requests per process, platform events; request ids, generation numbers, deadlines replaced by ordinals) after (prefix; reset) "
-         "must equal the one of the same suffix on a freshly started instance (phase tags init/invoke are not compared, initialisation and invocation events are compared as two streams); the fresh run is done twice and a suffix whose two baselines differ is "
-         "discarded and counted. Non-trivial: the prefix contains a failure or timeout, a late notification, or a different number of extensions.",
-    assumptions=["fake process supervisor (DESIGN 3.4)", "suffixes that fail during initialisation are not generated: a failed first initialisation is legitimately answered differently from a failed later one"],
-    level_text="differential random search: suffix-after-prefix-and-reset against suffix-on-a-fresh-instance on normalised observable traces, with a determinism guard; one race ordered through a pause point.",
-    level_note="the runtime identity string (user agent) is not observable through the emulator's interfaces and is not compared; pause points reset.beforeServerClear / reinit.betweenClears are not used (nothing outside the emulator can act between them)",
-    technique="property-based testing (rapid): differential / metamorphic relation between two whole executions, hook-ordered late notification",
-)
+PROP = {'engine': 'stack',
+ 'test': 'TestC08',
+ 'level': 'exploration',
+ 'quick': {'checks': 70, 'shards': 14, 'timeout': 1500},
+ 'thorough': {'checks': 900, 'shards': 14, 'timeout': 3400},
+ 'rule': 'each case is three host runs. rapid draws a prefix of 1-3 generations from {healthy invocations with an extension set, init error reported '
+         'by the runtime, runtime exit after next / after response / while idle, timeout before the response / during init, extension init error / '
+         'exit error / stall, a different internal-extension population}, each ended by its own failure/timeout reset or an explicit reset, and a '
+         'lock-step suffix from {healthy, runtime exits after next, runtime reports an error, internal extension polling before / after the runtime, '
+         'timeout} with its own extension set (the extensions directory is rewritten between generations). Late-notification family: the exit '
+         'notification of the runtime killed by the last prefix reset is parked at vhook watch.exitRecorded and released while idle, during the next '
+         "initialisation or during the next invocation. Oracle: the normalised trace of the suffix (callers' statuses and bodies, every new "
+         "process's calls and answers, supervisor requests per process, platform events; request ids, generation numbers, deadlines replaced by "
+         'ordinals) after (prefix; reset) must equal the one of the same suffix on a freshly started instance (phase tags init/invoke are not '
+         'compared, initialisation and invocation events are compared as two streams); the fresh run is done twice and a suffix whose two baselines '
+         'differ is discarded and counted. Non-trivial: the prefix contains a failure or timeout, a late notification, or a different number of '
+         "extensions. Later addition: `stale` - before anything else the suffix's first runtime process makes an Extensions API call (next / exit "
+         'error / init error) with the identifier an extension of the prefix was given; on the fresh instance with an identifier nobody was given; '
+         'both must be refused alike (the echoed identifier is normalised).',
+ 'assumptions': ['fake process supervisor (DESIGN 3.4)',
+                 'suffixes that fail during initialisation are not generated: a failed first initialisation is legitimately answered differently '
+                 'from a failed later one'],
+ 'level_text': 'differential random search: suffix-after-prefix-and-reset against suffix-on-a-fresh-instance on normalised observable traces, with a '
+               'determinism guard; one race ordered through a pause point.',
+ 'level_note': "the runtime identity string (user agent) is not observable through the emulator's interfaces and is not compared; pause points "
+               'reset.beforeServerClear / reinit.betweenClears are not used (nothing outside the emulator can act between them)',
+ 'technique': 'property-based testing (rapid): differential / metamorphic relation between two whole executions, hook-ordered late notification'}
